@@ -28,7 +28,7 @@ from gallia.transports import TargetURI  # noqa: E402
 
 from simkit.clock import EPOCH, TimeShim, make_datetime  # noqa: E402
 from simkit.logpump import Pumps  # noqa: E402
-from simkit.loop import SimLoop, SimSpin, SimStop, describe_pending, spin_count  # noqa: E402
+from simkit.loop import HarnessError, SimLoop, SimSpin, SimStop, describe_pending, spin_count  # noqa: E402
 from simkit.net import SimNet  # noqa: E402
 from simkit.sqlite import SimSqlite  # noqa: E402
 from simkit.world import Recorder, Seams, seed_unseeded_rng  # noqa: E402
@@ -173,8 +173,10 @@ class CmdWorld:
                 fired.append(self.loop.time())
             self.rec.rec("SIGINT")
             handler = signal.getsignal(signal.SIGINT)
-            if callable(handler):
-                handler(signal.SIGINT, None)
+            if not callable(handler):
+                # SIG_IGN / SIG_DFL: the simulated Ctrl-C would silently do nothing (harness error, never a verdict)
+                raise HarnessError(f"simulated Ctrl-C: SIGINT disposition is {handler!r}, no Python-level handler installed")
+            handler(signal.SIGINT, None)
 
         self.loop.call_at(t, fire)
 
